@@ -8,6 +8,8 @@ import (
 	"github.com/friendsofgo/errors"
 	"github.com/gofrs/uuid"
 	jsoniter "github.com/json-iterator/go"
+
+	"github.com/Flowpack/prunner/verifhook"
 )
 
 var json = jsoniter.ConfigFastest
@@ -80,6 +82,7 @@ func (j *JsonDataStore) Load() (*PersistedData, error) {
 		return nil, errors.Wrap(err, "opening file")
 	}
 	defer f.Close()
+	verifhook.Yield("store.load.opened", j)
 
 	var result PersistedData
 
@@ -98,10 +101,16 @@ func (j *JsonDataStore) Save(data *PersistedData) error {
 		return errors.Wrap(err, "creating temporary file")
 	}
 	tmpFilename := f.Name()
+	verifhook.Yield("store.save.created", j, tmpFilename)
 
 	err = json.NewEncoder(f).Encode(data)
+	if e := verifhook.Fault("store.save.encode", j, tmpFilename); e != nil && err == nil {
+		err = e
+	}
+	verifhook.Yield("store.save.encoded", j, tmpFilename)
 	// In any case close the file
 	f.Close()
+	verifhook.Yield("store.save.closed", j, tmpFilename)
 	if err != nil {
 		return errors.Wrap(err, "encoding JSON")
 	}
@@ -111,6 +120,7 @@ func (j *JsonDataStore) Save(data *PersistedData) error {
 	if err != nil {
 		return errors.Wrap(err, "replacing data file by rename")
 	}
+	verifhook.Yield("store.save.renamed", j, tmpFilename)
 
 	return nil
 }
